@@ -16,7 +16,7 @@ import re
 
 from vf import astn, fm
 from vf.core import Collector
-from vf.docbase import DocProp, first_line_diff, opts_key, rand_opts
+from vf.docbase import DocProp, ellipsis_mechanism, first_line_diff, opts_key, rand_opts
 from vf.spans import first_diff as span_diff
 from vf.spans import spans
 
@@ -124,8 +124,11 @@ class C09(DocProp):
                 if base_again == off or True:
                     unq = (lambda t: t.translate({0x201c: '"', 0x201d: '"', 0x2018: "'", 0x2019: "'"})) if o.get("smartquotes") else (lambda t: t)
                     sq = lambda t: re.sub(r"\s+", "", canon(re.sub(r"(?m)^[ >]+", "", unq(t))))  # noqa: E731
-                    if sq(on) == sq(again):
+                    em = ellipsis_mechanism(on, again)
+                    if sq(on) == sq(again) and em == "ellipsis-at-line-start":
                         desc = "C09/diff/second-pass-converts-a-run-left-by-the-first"
+                    elif sq(on) == sq(again) and em:
+                        desc = f"C09/diff/second-pass-converts-a-run/{em}"
                 col.violation("diff", desc, sub, {"line": dd[0], "pass1": dd[1], "pass2": dd[2]})
         if col.evaluations % 197 == 0:
             col.sample({"seed": case.get("seed"), "profile": case.get("profile"), "opts": case["opts"][0]})
